@@ -267,11 +267,13 @@ def ceil(index, rep, flow):
     rep.check(ok, rule, "round2:max_feed = feed eaten by that herd", "the feed ceiling is not the feed the round-2 herd used", loc=loc(PARAMS, fn),
               detail=str(sorted(org)) if st else "")
     im = index.func(PARAMS, "Parameters.init_meat_and_dairy_and_feed_from_breeding")
-    IP = [a.arg for a in im.args.args]
+    from .core import param_role
+    herd_p = param_role(im, r"(\w+)\.feed_used\b")
+    fab_p = param_role(im, r"(\w+)\.create_feed_food_from_kcals\(")
     rets_im = [r for r in im.body if isinstance(r, ast.Return) and isinstance(r.value, ast.Tuple)]
     slot0 = Inliner(im).src(rets_im[-1].value.elts[0]) if rets_im else ""
     # slot 0 of what the function returns (the feed charged) is create_feed_food_from_kcals(<herd object parameter>.feed_used)
-    rep.check(len(IP) > 3 and slot0 == f"{IP[3]}.create_feed_food_from_kcals({IP[2]}.feed_used)", rule,
+    rep.check(herd_p is not None and fab_p is not None and slot0 == f"{fab_p}.create_feed_food_from_kcals({herd_p}.feed_used)", rule,
               "feed_used = herd.feed_used", "feed_used is no longer the herd object's feed_used series", loc=loc(PARAMS, im))
     rep.require_min(rule, 4)
 
